@@ -117,6 +117,21 @@ def r3_reads(ctx):
             ctx.ob("R16.3", "%s:only-read_exact|%s" % (fn, c.norm.split("::")[-1]), False, c.site, "`%s` may return fewer bytes than requested: a greeting/request split across TCP segments is mis-parsed" % c.norm.split("::")[-1])
         if not bare:
             ctx.ob("R16.3", "%s:only-read_exact" % fn, len(allr) >= 2, "", "%d reads, all read_exact" % len(allr))
+    # every read goes to the connection itself: a buffering wrapper that is dropped at the end of the function swallows whatever
+    # it read ahead (a request that arrived in the same segment as the greeting)
+    from .common import param
+    for fn in ("authenticate", "read_connection_request"):
+        b = co(ctx, "R16.3", SK + fn)
+        if b is None:
+            continue
+        ob = ctx.origins(b)
+        conn = param(b, 0)
+        rds = [c for c in b.calls() if (c.norm or "").split("::")[-1] in ("read", "read_exact", "read_buf", "read_u8", "read_u16", "fill_buf", "read_until", "read_line")]
+        bad = [c for c in rds if var_name(ob.of_operand(c.args[0])) != conn]
+        ctx.ob("R16.3", "%s:reads-the-connection-directly" % fn, bool(rds) and not bad, (bad or rds or [None])[0].site if (bad or rds) else "",
+               "all %d reads are on the connection parameter" % len(rds) if rds and not bad else
+               "a read goes through `%s`, not the connection itself: a local buffering reader that is dropped when the function returns loses the bytes it read ahead — a client that sends greeting and request in one "
+               "segment never gets its reply" % (fmt(ob.of_operand(bad[0].args[0]))[:60] if bad else "?"))
     rq = co(ctx, "R16.3", SK + "read_connection_request")
     if rq is not None:
         o = ctx.origins(rq)
@@ -189,3 +204,4 @@ def run(ctx):
     r5_reply_format(ctx)
     C10.r6_front_ends(ctx)
     C07.r3_atyp_tables(ctx)
+    C07.r9_decoded_address_is_the_bytes_read(ctx)
